@@ -116,6 +116,8 @@ func c11(x *runCtx) {
 	}
 	x.c.flush()
 	c11Typed(x)
+	// after transmission: the same items read from streams that hand out their bytes in other ways
+	c12Readers(x, "C11")
 }
 
 func c11Item(x *runCtx, it gen.Item, r interface {
